@@ -191,7 +191,20 @@ impl ConsumerGroup {
         self.create_consumer(consumer.to_string());
         
         // Add each entry to pending list
+        let mut newly_pending = 0;
         for entry in &entries {
+            // An entry that is delivered again (after XGROUP SETID moved the group
+            // back) may still be pending for somebody: it changes owner, it is
+            // not counted twice
+            if let Some(previous) = pending.remove_entry(&entry.id) {
+                let mut consumers = self.consumers.write().unwrap();
+                if let Some(old_consumer) = consumers.get_mut(&previous.consumer) {
+                    old_consumer.pending_count = old_consumer.pending_count.saturating_sub(1);
+                }
+            } else {
+                newly_pending += 1;
+            }
+            
             let pending_entry = PendingEntry {
                 id: entry.id,
                 consumer: consumer.to_string(),
@@ -213,7 +226,7 @@ impl ConsumerGroup {
         
         // Update total pending
         let mut total = self.total_pending.lock().unwrap();
-        *total += entries.len();
+        *total += newly_pending;
         
         // Update last delivered ID
         if let Some(last_entry) = entries.last() {
